@@ -90,6 +90,8 @@ var perturbations = []perturbation{
 	{"indent-none", reindent("")},
 	{"crlf", func(s []byte, _ *rand.Rand) []byte { return bytes.ReplaceAll(s, []byte("\n"), []byte("\r\n")) }},
 	{"bom", func(s []byte, _ *rand.Rand) []byte { return append([]byte("\xEF\xBB\xBF"), s...) }},
+	// the file does not end in a line break (its last line is often a single closing bracket)
+	{"no-final-newline", func(s []byte, _ *rand.Rand) []byte { return bytes.TrimRight(s, "\r\n") }},
 	{"trailing-blanks", func(s []byte, r *rand.Rand) []byte {
 		return mapLines(s, func(_ int, l string, ts bool) []string {
 			if ts && !strings.Contains(l, "`") && r.Intn(3) == 0 {
